@@ -30,6 +30,9 @@ def twin(v, mapping):
 def run(chk, repo, tier):
     from .common import no_hidden_state
     no_hidden_state(chk, repo, 'C15')
+    chk.clause('C15-o', 'sampling, integrating and binning leave the spectrum untouched', 3)
+    from .common import operands_untouched
+    operands_untouched(chk, repo, 'C15-o', ['radiometry.Spectrum.sample', 'radiometry.Spectrum.integrate', 'radiometry.Spectrum.bin', 'radiometry.Spectrum.ends'], allow=[])
     chk.clause('C15-a', 'the grid stays strictly increasing: three validations dominate the store; every grid write goes through the setter', 5)
     chk.clause('C15-b', 'one value per wavelength: wave and value are updated together with twin right-hand sides', 6)
     chk.clause('C15-c', 'retained samples are not altered: selections / stacking of the original arrays only', 5)
